@@ -139,6 +139,8 @@ class World:
             self.plain_down = set()  # servers the master saw lose their presence, untouched since
             self.untracked = set()   # servers deleted / created while watch delivery was deferred
             self.admin_down = set()  # servers an administrator declared down (until up / re-registered)
+            self.obs_marks = {}      # instance -> server it was marked for unscheduling on
+            self.obs_marks_unknown = set()
             self.queues = []
             self.placement = None
             world = self
@@ -294,6 +296,8 @@ class World:
                 self.spells[self.ids[old]] = old_spell
         self.names[a] = ids[0]
         self.ids[ids[0]] = a
+        self.obs_marks.pop(a, None)
+        self.obs_marks_unknown.discard(a)
 
     def ev_DeleteApp(self, a):
         masterapi.delete_apps(self.admin, [self.names[a]])
@@ -368,6 +372,19 @@ class World:
             self.obs_frozen.add(s)
         else:
             self.obs_frozen.discard(s)
+        if state == 'frozen':
+            # observer: an instance is marked for unscheduling FOR the server it is on
+            # when the request is processed (only knowable when it is processed at once)
+            for a in apps:
+                inst = self.names.get(a)
+                if inst is None:
+                    continue
+                if self.master is None or getattr(self, 'deferred', False):
+                    self.obs_marks_unknown.add(a)
+                else:
+                    app = self.master.cell.apps.get(inst)
+                    if app is not None and app.server == s:
+                        self.obs_marks[a] = s
         masterapi.update_server_state(self.admin, s, state,
                                       [self.names[a] for a in apps if a in self.names])
 
@@ -530,6 +547,11 @@ class World:
     def ev_Integrity(self):
         """The master's periodic check_integrity() (_check_pending_start)."""
         self.master.check_integrity()
+        # the master may freeze a server and mark instances itself (instances that do
+        # not start): marks the environment did not give are taken from the code
+        for inst, app in self.master.cell.apps.items():
+            if app.unschedule and self.aname(inst) not in self.obs_marks:
+                self.obs_marks_unknown.add(self.aname(inst))
 
     def ev_Tick(self, n):
         self.v.ticks += n
@@ -841,6 +863,8 @@ def replay(scn, history):
                 line['spells'] = {k: v for k, v in w.spells.items() if k not in w.untracked}
                 line['obs_down'] = {k: v for k, v in w.obs_down.items() if w.master is not None}
                 line['obs_frozen'] = sorted(w.obs_frozen)
+                line['obs_marks'] = dict(w.obs_marks)
+                line['obs_marks_unknown'] = sorted(w.obs_marks_unknown)
                 if ev == 'Cycle' and w.placement is not None:
                     if probe:
                         line['probe'] = probe
@@ -906,6 +930,7 @@ def sched_segments(tid, lines):
                         declared=l.get('declared', {}), oprio=l.get('oprio', {}),
                         decl_apps=l.get('decl_apps', {}), obs_down=l.get('obs_down', {}),
                         decl_allocs=l.get('decl_allocs', {}),
+                        obs_marks=l.get('obs_marks', {}), obs_marks_unknown=l.get('obs_marks_unknown', []),
                         obs_frozen=l.get('obs_frozen', []))]
             continue
         if not cur:
@@ -915,6 +940,7 @@ def sched_segments(tid, lines):
         line = dict(ev=('ProbeCycle' if 'probe' in l else 'Cycle') if is_cycle else 'L2', args=[], h=k,
                     post=l['post'],
                     spells=l.get('spells', {}), obs_down=l.get('obs_down', {}),
+                    obs_marks=l.get('obs_marks', {}), obs_marks_unknown=l.get('obs_marks_unknown', []),
                     obs_frozen=l.get('obs_frozen', []))
         if is_cycle:
             line['queues'] = l['queues']
